@@ -15,7 +15,7 @@ import (
 func init() {
 	register("C09",
 		"anything about interleavings beyond what follows from the absence of unsynchronised shared writes; implicit run-time panics inside the critical section that depend on float-valued table indices (bounded under C08 R08.6); liveness beyond lock pairing; calls made through reflection by fmt (String methods are checked as accessors in their own right).",
-		r09_1, r09_2, r09_3, r09_5)
+		r09_1, r09_2, r09_3, r09_5, r09_6)
 }
 
 // package state that may be written after init, with the reason; every entry is
@@ -389,4 +389,55 @@ func clientWrites(c *Ctx, r *Report, rule string) {
 	if n < 200 {
 		r.bad(rule, "client packages loaded", "-", fmt.Sprintf("only %d client functions found (expected the 237 tests and the demo)", n))
 	}
+}
+
+// R09.6: history-dependent state is read only where it is keyed.
+func r09_6(c *Ctx, r *Report) {
+	const rule = "R09.6"
+	r.rule(rule, "Readers of history-dependent state. The package variables that are written after initialisation hold whatever the last caller — of any goroutine — left there. Each may be loaded only by the functions declared for it: calendar.CACHE_YEAR by NewLunarYear alone (which compares the slot's year with the requested year under the lock before handing it out, R09.2), the holiday tables by the HolidayUtil lookups and Fix. Any other reader (a helper returning 'the current table') makes a result depend on which call ran last.")
+	allowed := map[string]map[string]bool{
+		"calendar.CACHE_YEAR": {"calendar.NewLunarYear": true},
+	}
+	for g, ws := range allowedGlobalWriters {
+		if _, ok := allowed[g]; !ok {
+			allowed[g] = map[string]bool{}
+			for w := range ws {
+				allowed[g][w] = true
+			}
+		}
+	}
+	n := 0
+	seen := map[string]int{}
+	for _, fn := range c.Funcs {
+		if isInit(fn) {
+			continue
+		}
+		for _, b := range fn.Blocks {
+			for _, ins := range b.Instrs {
+				ld, ok := ins.(*ssa.UnOp)
+				if !ok || ld.Op != token.MUL {
+					continue
+				}
+				g, ok := ld.X.(*ssa.Global)
+				if !ok {
+					continue
+				}
+				readers, tracked := allowed[gname(g)]
+				if !tracked {
+					continue
+				}
+				n++
+				construct := uniq(seen, "load of "+gname(g)+" in "+fname(fn))
+				switch {
+				case readers[fname(fn)]:
+					r.ok(rule, construct, c.pos(ld.Pos()), "declared reader")
+				case strings.HasPrefix(gname(g), "HolidayUtil.") && strings.HasPrefix(fname(fn), "HolidayUtil."):
+					r.ok(rule, construct, c.pos(ld.Pos()), "holiday lookups read the live table by design (C14 R14.5)")
+				default:
+					r.bad(rule, construct, c.pos(ld.Pos()), gname(g)+" holds what the most recent caller of any goroutine left there; "+fname(fn)+" reads it without being its keyed lookup, so its result depends on the calls made before and on concurrent callers")
+				}
+			}
+		}
+	}
+	r.check(n >= 3, rule, "loads of history-dependent package state", "-", fmt.Sprintf("%d loads inventoried (floor 3)", n))
 }
